@@ -910,6 +910,7 @@ func (e *Engine) execBinOp(s *State, fr *Frame, x *ssa.BinOp) {
 			r = wrapInt(q, rt)
 		} else {
 			r = Sub(a, Mul(b, q))
+			r = e.coordRemLemma(s, a, b, r) // models_coord.go: opt-in: names the remainder, adds 0 <= a%b < b for a >= 0, b > 0
 		}
 	case token.LSS:
 		r = Lt(a, b)
